@@ -191,7 +191,7 @@ def species_meta(ctx, rank):
         rd = reference_data[lab]
         mass = F(100 + rank) + F(1, 4)
         lc = F(3) + F(rank, 8)
-        lt = ["bcc", "hcp", "fcc", "sc"][rank - 1]
+        lt = ["bcc", "HCP", "Fcc", "sc"][rank - 1]      # the lattice type is carried over as written
         lines = ["%s.atomic_mass : %s" % (lab, dec(mass)), "%s.lattice_constant : %s" % (lab, dec(lc)),
                  "%s.lattice_type : %s" % (lab, lt)]
         return (rd.atomic_number, mass, lc, lt), lines
